@@ -220,6 +220,26 @@ META = {
     "C18-dir-handle-stored-after-copies-again": ("C18", "p_dir_new stores the DIR handle after the path copies; needs one of those allocations to fail - the stream leaks"),
     "C19-sem-open-retry-solaris-only": ("C19", "the first sem_open EINTR retry compiled only on Solaris; needs EINTR on the exclusive sem_open"),
     "C20-shutdown-relies-on-tls-destructor": ("C20", "p_uthread_shutdown wipes the TLS slot without unref, counting on the destructor; needs an adopted thread (main) calling p_uthread_current then shutdown"),
+    # round 11
+    "C01-mutex-lock-tests-negative-result": ("C01", "p_mutex_lock tests pthread_mutex_lock's result with `< 0` (the -1-on-error convention) although it returns a positive errno; needs a lock call that fails (EDEADLK on an error-checking mutex, EINVAL, EOWNERDEAD) - reported as taken"),
+    "C02-general-set-readers-mask-sixteen-bits": ("C02", "general model: the SET macro of the packed waiting-readers count masks with 16 bits while the getter reads the full field; needs more than 65535 waiting readers or a neighbouring count bit, 'general' build only"),
+    "C03-recursive-mutex-held-twice-at-wait": ("C03", "p_mutex_new creates a recursive native mutex; needs a thread that locked twice before p_cond_variable_wait - the wait releases one level only and nobody can signal"),
+    "C04-sim-shutdown-keeps-dangling-mutex": ("C04", "sim model: p_atomic_thread_shutdown frees the global mutex but keeps the pointer; needs init, shutdown, init again (the second init skips creation) and then any atomic operation"),
+    "C05-ref-plain-increment": ("C05", "p_uthread_ref increments ref_count with a plain ++; needs two threads taking references (or one ref racing an unref) - a lost update frees the handle early"),
+    "C06-init-val-field-sixteen-bits": ("C06", "PSemaphore.init_val narrowed to pushort; needs an initial value above 65535 - the created semaphore counts value mod 65536"),
+    "C07-follower-size-through-32-bits": ("C07", "the follower reads st_size through a puint32 cast; needs an existing segment of 4 GiB or more - get_size reports the size mod 2^32 and the mapping is short"),
+    "C08-fit-test-sum-wraps": ("C08", "write's fit test rewritten as used + len >= size, which wraps in psize; needs a len close to SIZE_MAX on a non-empty buffer - accepted, then memcpy with a huge length"),
+    "C09-sender-address-skipped-for-empty-datagram": ("C09", "receive_from builds the sender address only when ret > 0; needs a zero-length datagram with an address requested - the caller's pointer stays unset"),
+    "C10-check-connect-result-keeps-connected": ("C10", "check_connect_result returns FALSE before storing `connected` when SO_ERROR != 0; needs a socket marked connected whose later non-blocking attempt is refused - is_connected keeps saying TRUE"),
+    "C11-sha3-position-through-32-bits": ("C11", "SHA-3 update computes the block offset through a 32-bit product; needs more than 4 GiB fed in one call (or a length whose low 32 bits alias) - digest differs"),
+    "C12-clear-frees-node-before-value-notifier": ("C12", "p_tree_clear releases the node before handing its value to the notifier in the left == NULL branch; needs a value notifier and an allocator that reuses or poisons the block (ASan)"),
+    "C14-foreach-thread-counter-8bit-again": ("C14", "foreach's Morris-thread counter narrowed to 8 bits; needs a traversal stopped after a multiple of 256 open threads - threads stay in the tree and clear/remove walk a cycle"),
+    "C15-list-append-null-on-oom-again": ("C15", "p_list_append returns NULL instead of the list when the item allocation fails; needs that allocation to fail - the caller's `list = p_list_append (list, x)` loses every element"),
+    "C16-strchomp-all-blank-returns-null": ("C16", "p_strchomp returns NULL for an all-blank non-empty string; needs a quoted INI value made of blanks only - the key is dropped from the section"),
+    "C17-address-text-buffer-one-short": ("C17", "get_address passes sizeof(buffer) - 1 to inet_ntop; needs an address whose text form has the maximal length (255.255.255.255-like, full IPv6) - ENOSPC, NULL returned"),
+    "C18-addrinfo-leaked-on-oom": ("C18", "p_socket_address_new returns before freeaddrinfo when the conversion allocation fails; needs an IPv6 literal and that allocation to fail - the libc list leaks"),
+    "C19-accept-eintr-retry-dropped": ("C19", "the EINTR retry after accept() was dropped; needs a handled signal during accept on a blocking socket - accept fails with an interrupted-call error"),
+    "C20-shm-take-ownership-forgets-semaphore": ("C20", "p_shm_take_ownership no longer passes ownership to the guarding semaphore; needs a non-creator taking ownership then free - the named semaphore stays in the system"),
 }
 
 
